@@ -113,6 +113,39 @@ class C19Bounded(Bounded):
         missing = [k for k in (baseline or []) if k not in keys2]
         if [(k[0], k[1]) for k in missing] != [("DanglingConditionIssue", ("r3",))] or [k for k in keys2 if k not in (baseline or [])]:
             fail("exclusions", f"excluding dangling_condition for r3 changed the issues by {missing} / added {[k for k in keys2 if k not in (baseline or [])][:3]}", [])
+        # validation AFTER conversion through a pipeline that rewrites the conditions (add_condition) and fields: the reference checks are exact
+        # about the conditions the rules have NOW - the added detection is referred to by every condition, so nothing new is unused / dangling
+        ev += 1
+        nontriv += 1
+        from sigma.processing.pipeline import ProcessingPipeline
+        rules = [SigmaRule.from_dict(rule_doc(*r)) for r in RULES]
+        refv = lambda: SigmaValidator([validators["dangling_detection"], validators["dangling_condition"]])
+        def refkeys(issues):
+            out = set()
+            for i in issues:
+                k = issue_key(i)
+                out.add((k[0], k[1], dict(k[2]).get("detection_name") or dict(k[2]).get("condition_name")))
+            return out
+        before_c = refkeys(refv().validate_rules(iter(rules)))
+        b = TextQueryTestBackend(ProcessingPipeline.from_dict(PIPELINE), collect_errors=True)
+        b.convert(SigmaCollection(rules))
+        after_c = refkeys(refv().validate_rules(iter(rules)))
+        # (r4's selector `1 of _*` is no longer dangling afterwards: the detection added by add_condition has an underscore name and matches it)
+        exp_after = exp - {("DanglingConditionIssue", ("r4",), "_*")}
+        if before_c != exp or after_c != exp_after:
+            fail("after-conversion", f"reference checks before conversion {sorted(before_c ^ exp)} / after conversion through a pipeline that adds a condition {sorted(after_c ^ exp_after)} differ from the exact set (symmetric differences shown)", [])
+        # titles that differ only in case are different titles: the duplicate groups are exact in every rule order
+        titles = ["Foo", "foo", "Foo", "Bar", "BAR", "Bar"]
+        trules = [SigmaRule.from_dict(rule_doc(f"t{i}", None, t, {"sel": {"f": i}, "condition": "sel"})) for i, t in enumerate(titles)]
+        tperms = list(itertools.permutations(range(6)))
+        rnd.shuffle(tperms)
+        for perm in tperms[: (120 if tier == "quick" else 720)]:
+            ev += 1
+            nontriv += 1
+            vv = SigmaValidator([validators["duplicate_title"], validators["identifier_uniqueness"]])
+            grp = sorted(issue_key(i)[1] for i in vv.validate_rules(iter([trules[i] for i in perm])) if type(i).__name__ == "DuplicateTitleIssue")
+            if grp != [("t0", "t2"), ("t3", "t5")]:
+                fail("title-groups", f"duplicate titles {titles} in rule order {list(perm)}: reported groups {grp}, expected exactly [('t0', 't2'), ('t3', 't5')]", [list(perm)])
         # duplicate file names: groups are exact and independent of rule order
         root = tempfile.mkdtemp(prefix="c19_")
         try:
